@@ -102,6 +102,16 @@ def directed() -> List[Dict[str, Any]]:
                     D.append({"budget": 5, "nv": nv, "transpile": tr, "events": [
                         {"a": "keep", "role": role, "hs": list(range(1, n + 1)), "fid": 80, "fail": fail}, {"a": "flush"},
                         {"a": "measD", "h": 1}, {"a": "flush"}]})
+    # the body of a sequential post routine / context works on another live qubit before AND after the pair's qubit
+    for nv, tr in ((False, False), (True, False), (True, True)):
+        for role in ("create", "recv"):
+            for form in ("sequential", "context"):
+                if nv and form == "context":
+                    continue            # (NV contexts are a recorded finding of their own)
+                for n in (1, 2):
+                    D.append({"budget": 3, "nv": nv, "transpile": tr, "events": [
+                        {"a": "new", "h": 1}, {"a": "seq", "role": role, "n": n, "form": form, "with": 1}, {"a": "flush"},
+                        {"a": "gate", "h": 1}, {"a": "measD", "h": 1}, {"a": "flush"}]})
     D.append({"budget": 4, "nv": False, "transpile": False, "events": [
         {"a": "new", "h": 1}, {"a": "keep", "role": "create", "hs": [2, 3], "fid": 80, "fail": [0]}, {"a": "flush"},
         {"a": "gate2", "h": 1, "h2": 3}, {"a": "free", "h": 2}, {"a": "new", "h": 4}, {"a": "flush"}]})
@@ -179,15 +189,24 @@ def _run(item):
                 n = e["n"]
                 if e["role"] == "recv":
                     conn.link.remote.append(dict(remote=1, purpose=0, type="K", n=n))
+                by = handles.get(e.get("with", 0))        # a live qubit of the application that the body also works on
                 if e["form"] == "sequential":
                     def post(conn_, q, pair):
+                        if by is not None:
+                            by.X()
                         q.H()
                         q.measure()
+                        if by is not None:
+                            by.Z()
                     (sock.create_keep if e["role"] == "create" else sock.recv_keep)(n, post_routine=post, sequential=True)
                 else:
                     with (sock.create_context(n) if e["role"] == "create" else sock.recv_context(n)) as (q, pair):
+                        if by is not None:
+                            by.X()
                         q.H()
                         q.measure()
+                        if by is not None:
+                            by.Z()
             elif a == "flush":
                 try:
                     conn.flush()
